@@ -196,22 +196,21 @@ class Mon:
         work = [(r, 1, 0, False) for r in self.roots]
         while work:
             f, prod, nloops, crossed = work.pop()
-            if f.kind in LOOP_KINDS:
+            if f.kind in LOOP_KINDS and f.count > 0:
+                # (a loop with no iteration contributes nothing: what runs below its frame
+                # is its `else` branch, outside the loop)
                 prod *= f.count
-                if f.count > 1:
-                    if nloops >= 1 and (crossed or f.kind in PARTIAL_KINDS):
-                        self.cross_partial = True
-                    nloops += 1
-                    crossed = crossed or f.kind in PARTIAL_KINDS
-                elif f.kind in PARTIAL_KINDS and nloops:
-                    crossed = True
-            elif nloops:
+            if f.kind in LOOP_KINDS and f.count > 1:
+                if nloops >= 1 and (crossed or f.kind in PARTIAL_KINDS):
+                    self.cross_partial = True
+                nloops += 1
+                crossed = crossed or f.kind in PARTIAL_KINDS
+            elif nloops and f.kind in ("render", "include", "call", "block", "extends"):
                 crossed = True
-            if prod > best:
+            if prod > best and f.kind in LOOP_KINDS and f.count > 0:
                 best = prod
-            if prod:
-                for c in f.children:
-                    work.append((c, prod, nloops, crossed))
+            for c in f.children:
+                work.append((c, prod, nloops, crossed))
         return best
 
     # ---------------------------------------------------------------- output
